@@ -158,7 +158,7 @@ def validate_results(ev, prop, results, name):
             marked.append(ls)
     flat = [ln for ls in marked for ln in ls]
     return vlib.validate_batch(ev, prop, 'PlanTrace', flat, signature, name, timeout=3000, env={'VPROP': prop},
-                               reset_key='"e":"expect"' if EXPECT else '"e":"verdict"', describe_fn=describe)
+                               reset_key='"e":"expect"' if EXPECT else '"e":"verdict"', describe_fn=describe, groups=marked)
 
 
 ALL_CONFIGS = ['dbg_exec', 'rel_exec_hadd_ci', 'dbg_exec_hadd', 'dbg_exec_ci', 'dbg_exec_hadd_ci', 'rel_exec', 'rel_exec_hadd', 'rel_exec_ci']
